@@ -55,12 +55,4 @@ PROPERTIES
   Act_C08_Callback
   Act_C08_Funds
   Act_C13_OnceOnTime
-  Act_X07_RefundTiming
-  Act_X07_EnableDisable
-  Act_X07_MinDeposit
-  Act_X07_Eligible
-  Act_X07_WithdrawAll
-  Act_X08_Update
-  Act_X08_Create
-  Act_X08_ModuleCall
 CHECK_DEADLOCK FALSE
